@@ -379,6 +379,35 @@ pub fn enum_scripts(tier: Tier, f: &mut dyn FnMut(ScriptCase) -> bool) {
     }
 }
 
+fn enum_long_scripts(_tier: Tier, f: &mut dyn FnMut(ScriptCase) -> bool) {
+    for k in (4090usize..=4099).chain(8186..=8195) {
+        // old = e0 d0 e1 d1 ... (kept items 1000+i, deleted items 5) then 99 7; new = kept items, 99 99 7
+        let mut old = vec![];
+        let mut new = vec![];
+        let mut script = vec![];
+        for i in 0..k {
+            if i % 2 == 0 {
+                script.push(SOp::Equal(old.len(), new.len(), 1));
+                old.push(1000 + i as u32);
+                new.push(1000 + i as u32);
+            } else {
+                script.push(SOp::Delete(old.len(), 1, new.len()));
+                old.push(5);
+            }
+        }
+        script.push(SOp::Insert(old.len(), new.len(), 1));
+        new.push(99);
+        script.push(SOp::Equal(old.len(), new.len(), 2));
+        old.extend([99, 7]);
+        new.extend([99, 7]);
+        for stack in [0u8, 2, 3] {
+            if !f(ScriptCase { old: old.clone(), new: new.clone(), script: script.clone(), stack, base: (0, 0) }) {
+                return;
+            }
+        }
+    }
+}
+
 impl Prop for C10 {
     type Case = ScriptCase;
     const ID: &'static str = "C10";
@@ -396,6 +425,14 @@ impl Prop for C10 {
                     scope: "all valid scripts (equal/delete/insert runs of every length, every interleaving) of all (old,new) over {0,1} with lengths <= 3 x 4 adapter stacks (incl. the reversed stacking Replace<Compact<_>>)".into(),
                     exhaustive: true,
                     gen: enum_scripts,
+                },
+            },
+            Stage {
+                name: "long-scripts",
+                kind: StageKind::Enumerate {
+                    scope: "scripts of k alternating equal(1) / delete(1) calls for k in 4090..=4099 and 8186..=8195 followed by an insertion that can slide one item down, through Compact, Compact<Replace> and Replace<Compact> (thousands of ops in one script, the hunk that must move sits right behind the 4096th / 8192nd op)".into(),
+                    exhaustive: true,
+                    gen: enum_long_scripts,
                 },
             },
             Stage { name: "random", kind: StageKind::Random { strategy: strat, cases: tier.pick(1_500_000, 8_000_000) } },
